@@ -34,7 +34,8 @@ class JsonDeserializer {
 
     err = parseVariant(variant, filter, nestingLimit);
 
-    if (!err && latch_.last() != 0 && variant.isFloat()) {
+    if (!err && latch_.last() != 0 && !isSpace(latch_.last()) &&
+        variant.isFloat()) {
       // We don't detect trailing characters earlier, so we need to check now
       return DeserializationError::InvalidInput;
     }
@@ -594,6 +595,10 @@ class JsonDeserializer {
 
   static inline bool isQuote(char c) {
     return c == '\'' || c == '\"';
+  }
+
+  static inline bool isSpace(char c) {
+    return c == ' ' || c == '\t' || c == '\r' || c == '\n';
   }
 
   static inline uint8_t decodeHex(char c) {
